@@ -101,7 +101,8 @@ RemovePrefixFrom(p, q, off) ==
    IF p = <<>> /\ q = <<>> THEN off
    ELSE IF CompareNode(p, q) # 0 THEN off
    ELSE LET ip == PathIterate(p)  iq == PathIterate(q) IN
-        IF ip = -1 \/ iq = -1 THEN -2          \* the walk would leave one of the strings (outside the contract)
+        IF ip = -1 THEN off                    \* path exhausted
+        ELSE IF iq = -1 THEN off + ip          \* prefix exhausted: the equal node of path has been passed
         ELSE RemovePrefixFrom(Drop(p, ip), Drop(q, iq), off + ip)
 RemovePrefix(p, q) == RemovePrefixFrom(p, q, 0)
 =============================================================================
